@@ -133,6 +133,15 @@ def replay_case(lib, tid, case):
             h.setfn(o['p'], o['name'], o['x'])
     for p, ast in case['probes']:
         h.parse(p, ast)
+    if case.get('crossparser', True):
+        # a custom function of p1 that, in passing, has p2 evaluate something: the rest of p1's formula still resolves on p1
+        h.setfn('p1', 'XPEEK', {'mode': 'const', 'v': enc(0), 'i': 0}, shape='closure')
+        other = h.parser('p2')
+        h.parser('p1').hooks = {'call:XPEEK': lambda hh, args: other.parse('va+FA(2)+SUM(1,vb)')}
+        for a in (F.binop('+', F.call('XPEEK'), F.var('va')), F.binop('+', F.call('XPEEK'), F.call('FA', F.num('2'))),
+                  F.call('SUM', F.call('XPEEK'), F.var('vb'), F.call('SUM', F.num('1'))), F.binop('&', F.call('XPEEK'), F.var('vu'))):
+            h.parse('p1', a)
+        h.parser('p1').hooks = {}
     if case.get('blankvar', True):
         h.setvar('p2', 'vnone', {'t': 'blank'})
         h.setfn('p2', 'triple', {'mode': 'arg', 'v': {'t': 'blank'}, 'i': 1})
@@ -251,6 +260,22 @@ def near_miss_trace(lib, names, tid):
     return h.trace()
 
 
+def stamina_trace(lib, names, tid, calls=12000):
+    """a long-lived parser, failed evaluations, then tens of thousands of function calls: names still resolve as at first"""
+    h = Hist(lib, tid, {'stamina_calls': calls})
+    h.setvar('p1', 'va', enc(3))
+    h.setfn('p1', 'FA', {'mode': 'arg', 'v': {'t': 'blank'}, 'i': 1}, shape='closure')
+    for bad in ('1+*2', 'nosuch+1', 'NOSUCHFN(1)', '1/0', '#REF!+1'):
+        h.parser('p1').parse(bad)
+    text = 'FA(2)+SUM(1,ABS(-2))+va'
+    for _ in range(calls // 3):
+        h.parser('p1').p.parse(text)
+    for a in (F.call('FA', F.num('2')), F.binop('+', F.call('SUM', F.num('2'), F.num('3')), F.var('va')), F.call('NOSUCHFN', F.num('1')),
+              F.var('nosuch'), F.call('ABS', F.neg(F.num('4')))):
+        h.parse('p1', a)
+    return h.trace()
+
+
 def shadow_trace(lib, names, tid):
     """every documented name shadowed by a custom function, called with 0, 1 and 2 arguments: the custom function
     is the one that is called, once, and its value is the call's value"""
@@ -285,6 +310,8 @@ def main(tier, replay=None):
             tr = [shadow_trace(lib, names, 1)]
         elif 'near_miss_names' in case:
             tr = [near_miss_trace(lib, names, 1)]
+        elif 'stamina_calls' in case:
+            tr = [stamina_trace(lib, names, 1, case['stamina_calls'])]
         else:
             tr = [replay_case(lib, 1, case)]
         core.validate_hist(run, tr, 'replay', consts, engine='c09')
@@ -328,6 +355,7 @@ def main(tier, replay=None):
         emit(lambda tid: replay_case(lib, tid, rc))
     emit(lambda tid: shadow_trace(lib, names, tid))
     emit(lambda tid: near_miss_trace(lib, names, tid))
+    emit(lambda tid: stamina_trace(lib, names, tid, 12000 if quick else 120000))
     emit(lambda tid: resolve_trace(lib, names, tid))
     flush()
     run.exhaustive = True
